@@ -481,8 +481,8 @@ struct CppWorld : World {
         int ret = 0;
         if (ov < 2) {
             GuardBuf o(x.size() >= 16 ? x.size() - 16 : 0, 3, false);
-            if (tamper == 2) { ret = -1; ok = false; /* raw-pointer decrypt of less than a tag is not a valid call */ if (c.record) c.run->probe("dec.short_skipped_for_ptr_overload"); }
-            else {
+            // (fewer bytes than a tag is a valid call, documented to return -1; the plaintext buffer then has no room at all)
+            {
                 ret = (ov & 1) ? C.obj->decrypt(o.p, ptr(x), x.size()) : C.obj->decrypt(o.p, ptr(x), x.size(), ptr(ad), ad.size());
                 ok = ret >= 0;
                 if (c.record && !o.intact()) c.run->violation("C12", "canary", site, "plaintext canary damaged");
